@@ -299,7 +299,7 @@ def cases(tier, seed):
         cost = 12.0 if (node and any(l == 1 for l, _ in lms)) else (3.0 if node else 0.7)
         add("bvp-aniso", {"k": k, "rad": spec, "opts": opts, "degree": deg, "lm": lms, "with_s": bool(rng.integers(2))}, cost)
     # 3b. (thorough, not required) anisotropic density with the DEFAULT options: documents how often the library fails to converge
-    for k in range(0 if q else 8):
+    for k in range(0 if q else 6):  # fewer than 10 cases even with the runner's second (python -O) pass: discards here are the point
         l = 1 if k < 2 else int(rng.integers(2, 5))
         add("bvp-aniso-default-options", {"k": k, "rad": {"kind": "gl-becke", "n": 100, "rmin": 1e-5, "R": 1.5}, "opts": {"include_origin": True, "rlp": 1e6}, "degree": 10, "lm": [[l, int(rng.integers(-l, l + 1))]], "with_s": False}, 150.0 if l == 1 else 4.0)
     # 4. molecules (Becke cells between H and a heavier atom are sharp: those need degree >= 22, see ASSUMPTIONS)
